@@ -21,14 +21,16 @@ import (
 // C08Case: one request, its outcome class, and where the controllers'
 // progress is placed relative to the handler's "create" and "watch" steps.
 type C08Case struct {
-	Kind      string `json:"kind"`      // set | rollback
-	Sync      bool   `json:"sync"`      // Set only
-	Outcome   string `json:"outcome"`   // ok | invalid | refuse | rb-notfound | rb-forbidden | rb-of-rollback
-	Code      int    `json:"code"`      // refusal code for outcome refuse
-	StepsGap1 int    `json:"stepsGap1"` // controller steps while the handler is held between Create and Watch (-1: run to completion)
-	StepsGap2 int    `json:"stepsGap2"` // steps while held between Watch (registered) and the first receive (-1: to completion, -2: not held)
+	Kind      string `json:"kind"`          // set | rollback
+	Sync      bool   `json:"sync"`          // Set only
+	Outcome   string `json:"outcome"`       // ok | invalid | refuse | rb-notfound | rb-forbidden | rb-of-rollback
+	Code      int    `json:"code"`          // refusal code for outcome refuse
+	StepsGap1 int    `json:"stepsGap1"`     // controller steps while the handler is held between Create and Watch (-1: run to completion)
+	StepsGap2 int    `json:"stepsGap2"`     // steps while held between Watch (registered) and the first receive (-1: to completion, -2: not held)
+	Raw       bool   `json:"raw,omitempty"` // with a second hold: the store's Watch feeds the held handler directly (an unbuffered channel nobody reads meanwhile)
 	Multi     bool   `json:"multi"`
-	Offline   bool   `json:"offline"` // target offline (async only)
+	Extra     int    `json:"extra,omitempty"` // Multi: further operations (bit mask over c08Extra), some naming the SAME path on both targets
+	Offline   bool   `json:"offline"`         // target offline (async only)
 }
 
 func genC08(rt *rapid.T) C08Case {
@@ -40,6 +42,9 @@ func genC08(rt *rapid.T) C08Case {
 		c.Sync = rapid.IntRange(0, 1).Draw(rt, "sync") == 1
 		c.Outcome = []string{"ok", "ok", "invalid", "refuse", "ok", "ok", "invalid", "refuse", "unrenderable"}[rapid.IntRange(0, 8).Draw(rt, "outcome")]
 		c.Multi = rapid.IntRange(0, 2).Draw(rt, "multi") == 0
+		if c.Multi {
+			c.Extra = int(rapid.Uint64Range(0, 63).Draw(rt, "extra"))
+		}
 		if c.Outcome == "refuse" {
 			c.Code = []int{2, 3, 5, 6, 9, 12, 13, 16}[rapid.IntRange(0, 7).Draw(rt, "code")]
 		}
@@ -62,8 +67,20 @@ func genC08(rt *rapid.T) C08Case {
 	c.StepsGap2 = -2
 	if rapid.IntRange(0, 1).Draw(rt, "hold2") == 1 {
 		c.StepsGap2 = gap("gap2")
+		c.Raw = rapid.IntRange(0, 1).Draw(rt, "raw") == 1
 	}
 	return c
+}
+
+// c08Extra: further operations of a multi-target request; the first four name a path that the request also
+// names on the other target.
+var c08Extra = []model.Op{
+	{Kind: "update", Target: "t2", Path: model.Parse("/a/c/d")},
+	{Kind: "delete", Target: "t2", Path: model.Parse("/a/bc")},
+	{Kind: "update", Target: "t1", Path: model.Parse("/l1[id=1]/v")},
+	{Kind: "update", Target: "t1", Path: model.Parse("/mtu")},
+	{Kind: "update", Target: "t2", Path: model.Parse("/mtu")},
+	{Kind: "update", Target: "t2", Path: model.Parse("/l1[id=10]/v")},
 }
 
 var failureCode = map[configapi.Failure_Type]codes.Code{
@@ -139,6 +156,19 @@ func runC08(c C08Case, x *vstat.Ctx) error {
 		if c.Multi {
 			n := model.Str("n1")
 			spec.Ops = append(spec.Ops, model.Op{Kind: "update", Target: "t2", Path: model.Parse("/l1[id=1]/v"), Val: &n})
+			for i, e := range c08Extra {
+				if c.Extra&(1<<i) != 0 {
+					e := e
+					if e.Kind != "delete" {
+						v := model.Str("n2")
+						if e.Path.String() == "/mtu" {
+							v = model.Uint(7)
+						}
+						e.Val = &v
+					}
+					spec.Ops = append(spec.Ops, e)
+				}
+			}
 		}
 	case "rollback":
 		switch c.Outcome {
@@ -155,6 +185,7 @@ func runC08(c C08Case, x *vstat.Ctx) error {
 	prep := func(call *Call) {
 		call.HoldAfterCreate = true
 		call.HoldAfterWatch = c.StepsGap2 != -2
+		call.RawWatch = c.Raw && call.HoldAfterWatch
 	}
 	var call *Call
 	if c.Kind == "set" {
@@ -204,6 +235,9 @@ func runC08(c C08Case, x *vstat.Ctx) error {
 		}
 		if w.S.Steps-before > 0 {
 			x.NonTrivial("controller steps inside the window between Watch and the first receive")
+			if c.Raw {
+				x.Class("watch:store-feeds-the-held-handler-directly")
+			}
 		}
 		call.Release2()
 	} else {
@@ -280,6 +314,12 @@ func runC08(c C08Case, x *vstat.Ctx) error {
 		}
 		if d := model.DiffFlat(got, want); d != "" {
 			return vstat.Violf("the SetResponse does not list exactly the changed target/path pairs: %s", d)
+		}
+		if len(call.Resp.Response) != len(want) {
+			return vstat.Violf("the SetResponse lists %d results for %d changed target/path pairs", len(call.Resp.Response), len(want))
+		}
+		if c.Extra&7 != 0 {
+			x.Class("set:one-path-named-on-two-targets")
 		}
 		// extension 110 carries id and index of the stored record
 		var info *configapi.TransactionInfo
